@@ -6,6 +6,7 @@ namespace fmm { struct Segment { std::string name; std::function<long(bool)> cou
 DECL(3, 0)
 #else
 DECL(1, 0) DECL(2, 0) DECL(3, 0) DECL(4, 0) DECL(1, 1) DECL(2, 1) DECL(3, 1)
+void vh_fmm_segments_hilbert(std::map<std::string, std::vector<fmm::Segment>>&);
 #endif
 int main(int argc, char** argv) {
     std::map<std::string, std::vector<fmm::Segment>> segs;
@@ -14,6 +15,7 @@ int main(int argc, char** argv) {
 #else
     vh_fmm_segments_d1_0(segs); vh_fmm_segments_d2_0(segs); vh_fmm_segments_d3_0(segs); vh_fmm_segments_d4_0(segs);
     vh_fmm_segments_d1_1(segs); vh_fmm_segments_d2_1(segs); vh_fmm_segments_d3_1(segs);
+    vh_fmm_segments_hilbert(segs);
 #endif
     std::vector<vh::Mode> modes;
     for (auto& kv : segs) {
